@@ -99,7 +99,10 @@ def input_class(case):
     family, seed, mut, variant = case
     S = seeds()
     if mut is None:
-        return _norm(seed.split(":", 1)[1]) if ":" in seed else "valid-" + _norm(seed)
+        if ":" not in seed:
+            return "valid-" + _norm(seed)
+        name = seed.split(":", 1)[1]
+        return "delta-cycle" if "cycle" in name else _norm(name)
     kind = mut[0]
     if kind == mutfault.APPEND:
         return "appended-tail"
@@ -156,10 +159,11 @@ def judge(acc: Acc, flavour, case, obs, replay, sub=False):
         if ":non-ordinary-exception:" in key:
             key += ":" + input_class(case)
         acc.violation(key, summary + ("  [pure-Python build]" if flavour == "py" else ""), replay)
-    if cpu > PROMPT_CPU_S:
-        acc.violation("%s:not-prompt:%s" % (site, input_class(case)), "%s used %.1f s of CPU (statement: terminates promptly; bound 2 s for inputs this small)" % (
-            describe(case), cpu), replay)
     lg, size = legit(case)
+    bound = PROMPT_CPU_S + lg / float(2 << 20)  # + 1 s per 2 MiB of data the input legitimately inflates to
+    if cpu > bound:
+        acc.violation("%s:not-prompt:%s" % (site, input_class(case)), "%s used %.1f s of CPU (statement: terminates promptly; bound %.0f s for this input)" % (
+            describe(case), cpu, bound), replay)
     allow = MEM_BASE_KIB + (8 * lg + 4 * size) // 1024
     if obs.vm_kib is not None and max(obs.vm_kib, obs.rss_kib) > allow:
         acc.outcome("%s:memory-out-of-proportion" % site)
@@ -184,6 +188,7 @@ def evaluate(acc: Acc, flavour, cases, depth=0, attack=False):
     opts = dict(OPTS)
     if attack or depth:
         opts.pop("max_timeouts")  # the circuit breaker is for thousands of similar mutants, not for distinct attacks
+        opts["cpu_s"] = 10  # the attacks include honest 16 MiB objects
     res = p.map_observe(CASE, cases, **opts)
     for case, obs in zip(cases, res):
         replay = rp(case_one, flavour, list(case))
